@@ -2,6 +2,7 @@
 // Everything in this module is ASSUMED (trusted base), see DESIGN.md section 4.
 pub mod verif_std {
 use super::*;
+use vstd::std_specs::iter::IteratorSpec;
 
 // ---- integers <-> little-endian bytes (textbook definitions)
 /// little-endian integer value of a byte string
@@ -45,6 +46,19 @@ pub broadcast axiom fn ax_slice_len_bound<T>(s: &[T])
 /// a byte slice occupies at most isize::MAX bytes (Rust allocation rule)
 pub broadcast axiom fn ax_u8_slice_len_bound(s: &[u8])
     ensures #[trigger] s@.len() <= isize::MAX;
+
+/// T-std: `Iterator::fold` on a slice iterator is the left fold of the closure over the remaining items: there is
+/// a chain of accumulators accs[0] = init, accs[i+1] = f(accs[i], item i), and the result is the last one.
+pub open spec fn fold_chain<'a, T: 'a, B, F: FnMut(B, &'a T) -> B>(f: F, s: Seq<&'a T>, accs: Seq<B>) -> bool {
+    accs.len() == s.len() + 1
+    && forall|i: int| 0 <= i < s.len() ==> call_ensures(f, (#[trigger] accs[i], s[i]), accs[i + 1])
+}
+pub assume_specification<'a, T, B, F>[<core::slice::Iter<'a, T> as Iterator>::fold](it: core::slice::Iter<'a, T>, init: B, f: F) -> (r: B)
+    where F: FnMut(B, &'a T) -> B
+    requires
+        forall|b: B, i: int| 0 <= i < it.remaining().len() ==> #[trigger] call_requires(f, (b, it.remaining()[i])),
+    ensures
+        exists|accs: Seq<B>| accs[0] == init && #[trigger] fold_chain(f, it.remaining(), accs) && r == accs.last();
 
 /// T-std: `Vec<u8>` as an ordered-collection key.  std's `Ord for Vec<u8>` is the lexicographic order on the
 /// contents, so two keys compare Equal exactly when their contents are equal; in the specification language a
